@@ -177,7 +177,7 @@ func (h *vhandler) OnTick() (time.Duration, Action) {
 	h.rec.emit("Tick", "g", vsup.Goid(), "n", int(n))
 	if s := atomic.LoadInt32(&h.tickStop); s > 0 && n >= s {
 		h.rec.emit("StopReq", "src", "OnTick", "g", vsup.Goid())
-		h.rec.emit("TickEnd", "n", int(n), "action", int(Shutdown))
+		h.rec.emit("TickEnd", "n", int(n), "action", int(Shutdown), "delay", 3600000)
 		return time.Hour, Shutdown
 	}
 	if n%3 == 0 {
@@ -185,8 +185,15 @@ func (h *vhandler) OnTick() (time.Duration, Action) {
 		time.Sleep(25 * time.Millisecond) // a tick that takes a while: shutdown requests arrive while it runs
 		atomic.StoreInt32(&h.slowTick, 0)
 	}
-	h.rec.emit("TickEnd", "n", int(n), "action", int(None))
-	return 10 * time.Millisecond, None
+	// the delays differ from tick to tick (the timer is re-armed with each one), and a Close action, which
+	// means nothing for a tick, is returned now and then: the ticker must go on
+	delay := []int{10, 5, 20, 0, 15}[int(n)%5]
+	action := None
+	if n%4 == 1 {
+		action = Close
+	}
+	h.rec.emit("TickEnd", "n", int(n), "action", int(action), "delay", delay)
+	return time.Duration(delay) * time.Millisecond, action
 }
 
 func (h *vhandler) lookupPeer(addr string) *peerSpec {
